@@ -306,6 +306,23 @@ func Check(p *Plan) []Failure {
 				fs = append(fs, Failure{"C06", "conflict-change-outside-root", c.Root, fmt.Sprintf("inner change at %q is not at or below the root", ch.Path)})
 			}
 		}
+		// The reported (slim) form of the conflict, as listed to clients, must
+		// keep the root, stay valid and name the same change paths on each side.
+		if sl := c.Slim(); sl == nil || sl.Root != c.Root || sl.EnsureValid() != nil ||
+			len(sl.AlphaChanges) != len(c.AlphaChanges) || len(sl.BetaChanges) != len(c.BetaChanges) {
+			fs = append(fs, Failure{"C06", "conflict-slim-form-malformed", c.Root, "the slim (reported) form of the conflict is invalid or drops changes"})
+		} else {
+			for i := range c.AlphaChanges {
+				if sl.AlphaChanges[i].Path != c.AlphaChanges[i].Path {
+					fs = append(fs, Failure{"C06", "conflict-slim-form-malformed", c.Root, "the slim form renames an alpha change path"})
+				}
+			}
+			for i := range c.BetaChanges {
+				if sl.BetaChanges[i].Path != c.BetaChanges[i].Path {
+					fs = append(fs, Failure{"C06", "conflict-slim-form-malformed", c.Root, "the slim form renames a beta change path"})
+				}
+			}
+		}
 		if !fdSet[c.Root] {
 			fs = append(fs, Failure{"C06", "conflict-root-not-at-disagreement", c.Root, "conflict is not rooted at a path where the endpoints first disagree"})
 		}
